@@ -5,7 +5,8 @@ ID = 'C15'
 RULE = ('SCC streams in pop-on, roll-up and paint-on mode (and mixtures) whose rows carry 0-40 plain '
         'characters with the lengths concentrated on 31/32/33/40; pop-on and paint-on captions use adjacent '
         'rows (several lines in one caption) and non-adjacent rows (several captions sharing a start), so '
-        'that the long line is first / middle / last of a same-start group. Oracle from the transmitted '
+        'that the long line is first / middle / last of a same-start group. A row is addressed once per load '
+        '(text overlaid on a row by a second PAC has no defined "line" in the statement). Oracle from the transmitted '
         'rows alone: some row > 32 => CaptionLineLengthError whose message contains every offending row; '
         'otherwise a normal return in which every line has <= 32 characters. Non-trivial: at least one row '
         'of length >= 32, or >= 2 rows in one caption group.')
@@ -21,7 +22,8 @@ def cases(ctx):
     rng = ctx.rng('c15')
     for _ in range(ctx.budget(9000, 300000)):
         modes = rng.choice([['pop'], ['pop'], ['roll'], ['paint'], ['roll', 'pop'], ['paint', 'pop'],
-                            ['pop', 'pop'], ['roll', 'paint']])
+                            ['pop', 'pop'], ['roll', 'paint'], ['pop', 'roll', 'pop'], ['pop', 'paint', 'pop'],
+                            ['pop', 'roll']])
         lengths = LENGTHS if rng.random() < 0.7 else [0, 3, 10, 20, 30, 31, 32]
         yield {'stream': G.gen_stream(rng, modes=modes, lengths=lengths, tagged=True)}
 
@@ -38,7 +40,8 @@ def _groups(st):
                 out.append([len(G.items_display(r['items'])) for r in ln['rows']])
         else:
             for cap in seg['captions']:
-                out.append([len(G.items_display(r['items'])) for r in cap['rows']])
+                if not cap.get('abandoned'):
+                    out.append([len(G.items_display(r['items'])) for r in cap['rows']])
     return out
 
 
